@@ -547,3 +547,142 @@ def r_lookbehind(P, chk):
                                   base, f.src(n["c"][1]), why or "negative constant index"))
     chk.analysed[rid] = {"look_behind_sites": n_sites}
     chk.floor(rid, n_sites, 30, "look-behind index sites")
+
+
+# ---------------------------------------------------------------------------
+# R-INIT: no read of a never-initialised heap field
+
+INIT_SKIP_RECORDS = {"UT_hash_table", "UT_hash_bucket", "UT_hash_handle", "mz_zip_archive"}
+INIT_SKIP_FIELDS = {"_PADDING", "hh"}     # explicit padding; uthash handle (filled by HASH_ADD before any lookup)
+
+
+def _field_stores_in(f, base_key):
+    """Fields of *base_key assigned in f (direct stores, memset/memcpy of the object or of a field)."""
+    out = set()
+    whole = False
+    for x in f.walk():
+        if x["k"] == "BinaryOperator" and x["op"] == "=":
+            l = strip(x["c"][0])
+            while l is not None and l["k"] == "ArraySubscriptExpr":
+                l = strip(l["c"][0])
+            if l is not None and l["k"] == "MemberExpr" and key(l["c"][0]) == base_key:
+                out.add(l["n"])
+            elif l is not None and l["k"] == "UnaryOperator" and l["op"] == "*" and key(l["c"][0]) == base_key:
+                whole = True      # *p = *other
+        elif x["k"] == "CallExpr" and x.get("callee") in ("memset", "memcpy", "memmove"):
+            d = strip(x["c"][1])
+            if d is not None and key(d) == base_key:
+                whole = True
+            else:
+                while d is not None and d["k"] in ("ArraySubscriptExpr", "UnaryOperator"):
+                    d = strip(d["c"][0])
+                if d is not None and d["k"] == "MemberExpr" and key(d["c"][0]) == base_key:
+                    out.add(d["n"])
+    return out, whole
+
+
+def r_init(P, chk):
+    rid = "R-INIT"
+    chk.rule(rid, "every field of a malloc'ed first-party record is written by its constructor, or every read of it is "
+                  "preceded by a write (same function dominator, or a writer call dominating every call of the reader)")
+    ctors = []
+    for f in P.all_funcs:
+        if not first_party_logic(P, f):
+            continue
+        for n in f.walk():
+            tgt = rhs = ty = None
+            if n["k"] == "VarDecl" and n.get("c") and n["c"][0] is not None:
+                tgt, rhs, ty = n["n"], n["c"][0], n["t"]
+            elif n["k"] == "BinaryOperator" and n["op"] == "=":
+                tgt, rhs, ty = key(n["c"][0]), n["c"][1], (strip(n["c"][0]) or {}).get("t")
+            if rhs is None:
+                continue
+            r = strip(rhs)
+            if r is None or r["k"] != "CallExpr" or r.get("callee") != "malloc":
+                continue
+            m = re.match(r"(?:struct )?(\w+) \*$", ty or "")
+            if not m or m.group(1) in INIT_SKIP_RECORDS or m.group(1) not in P.records:
+                continue
+            # malloc(sizeof(T)) only (arrays of T are initialised element-wise elsewhere)
+            sz = r["c"][1]
+            if const_value(sz) != P.records[m.group(1)].get("size"):
+                continue
+            ctors.append((f, tgt, m.group(1)))
+    chk.floor(rid, len(ctors), 12, "malloc(sizeof(T)) constructors")
+    # all field reads / writes program-wide
+    reads, writes = {}, {}
+    for f in P.all_funcs:
+        if not P.first_party(f):
+            continue
+        for x in f.walk():
+            if x["k"] != "MemberExpr" or not x.get("rec"):
+                continue
+            p = f.parent(x)
+            # classify access
+            cur, par = x, p
+            while par is not None and par["k"] in ("ParenExpr", "ArraySubscriptExpr") and par["c"][0] is cur:
+                cur, par = par, f.parent(par)
+            while par is not None and par["k"] == "ImplicitCastExpr" and par.get("ck") == "ArrayToPointerDecay":
+                cur, par = par, f.parent(par)
+                while par is not None and par["k"] in ("ParenExpr", "ArraySubscriptExpr") and par["c"][0] is cur:
+                    cur, par = par, f.parent(par)
+            is_w = par is not None and par["k"] == "BinaryOperator" and par["op"] == "=" and par["c"][0] is cur
+            if is_w:
+                writes.setdefault((x["rec"], x["n"]), []).append((f, x))
+            elif par is not None and par["k"] == "UnaryOperator" and par["op"] == "&":
+                writes.setdefault((x["rec"], x["n"]), []).append((f, x))   # address escapes: may be written
+            else:
+                reads.setdefault((x["rec"], x["n"]), []).append((f, x))
+    callsites = {}
+    for g in P.all_funcs:
+        for c in g.calls():
+            if c.get("callee"):
+                callsites.setdefault(c["callee"], []).append((g, c))
+    seen_rec = set()
+    for f, tgt, rec in ctors:
+        fields = [x[0] for x in P.records[rec]["fields"] if x[0] not in INIT_SKIP_FIELDS]
+        assigned, whole = _field_stores_in(f, tgt)
+        # helpers the constructor hands the object to
+        for c in f.calls():
+            g = P.resolve(f, c.get("callee")) if c.get("callee") else None
+            if g is None:
+                continue
+            for i, a in enumerate(c["c"][1:]):
+                if key(a) == tgt and i < len(g.params):
+                    a2, w2 = _field_stores_in(g, g.params[i][0])
+                    assigned |= a2
+                    whole = whole or w2
+        late = [] if whole else [x for x in fields if x not in assigned]
+        chk.obligation(rid, "%s %s: constructor of %s initialises %d of %d fields%s" % (
+            f.where(), f.name, rec, len(fields) - len(late), len(fields), " (late: %s)" % late if late else ""), True,
+            nontrivial=bool(late))
+        for fld in late:
+            if (rec, fld) in seen_rec:
+                continue
+            seen_rec.add((rec, fld))
+            rs = reads.get((rec, fld), [])
+            ws = [(g, x) for g, x in writes.get((rec, fld), []) if g is not f]
+            wfuncs = {g.name for g, _ in ws}
+            badreads = []
+            for g, x in rs:
+                # (a) same-function dominating store to the same access path
+                ok = any(g2 is g and key(x2) == key(x) and g.cfg.dominates(g.parent(x2)["i"] if "i" in (g.parent(x2) or {}) else -1, x["i"])
+                         for g2, x2 in ws)
+                if not ok:
+                    # (b) every call of the reader is dominated by a call to a writer function
+                    cs = callsites.get(g.name, [])
+                    ok = bool(cs) and all(any(d.get("callee") in wfuncs and h.cfg.dominates(d["i"], c["i"]) for d in h.calls())
+                                          for h, c in cs)
+                if not ok:
+                    badreads.append((g, x))
+            desc = "%s.%s is not set by %s; %d reads, %d other writes" % (rec, fld, f.name, len(rs), len(ws))
+            if not badreads:
+                chk.obligation(rid, desc + ": every read is preceded by a write", True)
+                continue
+            chk.obligation(rid, desc, False)
+            g, x = badreads[0]
+            chk.violation(rid, "init:%s.%s" % (rec, fld), g.where(x),
+                          "field %s.%s is left uninitialised by %s (malloc) and read in %s without a dominating write "
+                          "(%d such reads): the value is indeterminate heap content" % (rec, fld, f.name, g.name, len(badreads)),
+                          {"reads": ["%s %s" % (a.where(b), a.name) for a, b in badreads[:8]]})
+    chk.analysed[rid] = {"constructors": ["%s:%s(%s)" % (f.base, f.name, rec) for f, _, rec in ctors]}
